@@ -93,7 +93,11 @@ func runACME(k *Case) result {
 		fmt.Fprintln(os.Stderr, "finalize:", ferr)
 	}
 	d := func(t string) int { return after[t] - before[t] }
-	out := fmt.Sprintf("%s got=%s tok=0 stored=%d data=%d acme=%d valid=%d trace=%s", cl, got,
-		d("x509_certs"), d("x509_certs_data"), d("acme_certs"), valid, c.List(ev))
+	fc := failClosed(cl, got, ev, d("x509_certs"), 1, 0, "na", false)
+	if cl == "ok" && d("acme_certs") == 0 {
+		fc = "BROKEN"
+	}
+	out := fmt.Sprintf("%s got=%s tok=0 stored=%d data=%d acme=%d valid=%d fc=%s trace=%s", cl, got,
+		d("x509_certs"), d("x509_certs_data"), d("acme_certs"), valid, fc, c.List(ev))
 	return result{out: out, trace: ev}
 }
